@@ -333,10 +333,15 @@ def coq_crosscheck(cases, expected, tag, budget=40000):
 
 
 def c18_static():
-    """Static obligations of C18 on the code itself: no unsafe code, no interior mutability in the library,
-    and the crate compiles with unsafe_code forbidden.  Returns a list of failure descriptions."""
-    bad = []
-    toks = re.compile(r"\b(unsafe|UnsafeCell|Cell|RefCell|Mutex|RwLock|Atomic\w*|OnceCell|OnceLock|LazyLock|thread_local|static\s+mut|lazy_static)\b")
+    """Static obligations of C18 on the code itself.  Returns {"direct": [...], "premise": [...]}:
+    direct  = the property text is violated as such: unsafe code in the library, or the crate does not compile with
+              unsafe_code forbidden;
+    premise = the premise of the schedule-independence theorem (a liftover step writes nothing shared) is no longer
+              evident from the source: interior mutability / statics in library code.  That is a broken correspondence, not
+              by itself a violation: the check then searches for a concurrent run that differs from the sequential one."""
+    direct, premise = [], []
+    unsafe_tok = re.compile(r"\bunsafe\b")
+    mut_tok = re.compile(r"\b(UnsafeCell|Cell|RefCell|Mutex|RwLock|Atomic\w*|OnceCell|OnceLock|LazyLock|thread_local|static\s+mut|lazy_static)\b")
     srcdir = os.path.join(REPO, "src")
     for d, _, fs in os.walk(srcdir):
         if os.path.join(srcdir, "bin") in d:
@@ -347,17 +352,19 @@ def c18_static():
             p = os.path.join(d, f)
             for ln, line in enumerate(open(p, errors="replace"), 1):
                 code = line.split("//")[0]
-                m = toks.search(code)
+                if unsafe_tok.search(code):
+                    direct.append("%s:%d: `unsafe` in library code: %s" % (os.path.relpath(p, REPO), ln, line.strip()[:120]))
+                m = mut_tok.search(code)
                 if m:
-                    bad.append("%s:%d: `%s` in library code: %s" % (os.path.relpath(p, REPO), ln, m.group(1), line.strip()[:120]))
+                    premise.append("%s:%d: `%s` in library code: %s" % (os.path.relpath(p, REPO), ln, m.group(1), line.strip()[:120]))
     env = dict(ENV)
     env["CARGO_TARGET_DIR"] = os.path.join(CACHE, "target-audit")
     with Lock("cargo-audit"):
         rc, log = run(["timeout", "900", "cargo", "rustc", "--offline", "--quiet", "-p", "chainfile", "--lib", "--", "-F", "unsafe_code"],
                       cwd=HARNESS_SRC, env=env, timeout=1000)
     if rc != 0:
-        bad.append("the crate does not compile with unsafe_code forbidden:\n" + log[-3000:])
-    return bad
+        direct.append("the crate does not compile with unsafe_code forbidden:\n" + log[-3000:])
+    return {"direct": direct, "premise": premise}
 
 
 PRE = {"c18_static": c18_static}
